@@ -15,7 +15,10 @@ RULE = (
     'case variants, surrounding whitespace, prefixes, ASCII separators/whitespace at every position, every '
     'stdnum.util._char_map key inserted/substituted; plus single edits of valid numbers - common.mutations and every '
     'digit/A/X inserted, substituted or a character deleted at every position - that validate() happens to '
-    'accept; only presentations that validate() accepts are used) x '
+    'accept; self-similar numbers: a substring of a valid number - as written / lower / upper / swapped case - '
+    'copied over or inserted at another part of it (field starts of 1-4 characters to every position), kept when '
+    'validate() accepts, each also in the case spellings of the whole number and of its first field; '
+    'only presentations that validate() accepts are used) x '
     'format keyword options found by inspect.signature (booleans True/False, meid format None/hex/dec, de.stnr '
     'regions, caller-supplied separator: only separators that the module\'s own compact() removes at every inner '
     'position of valid numbers - discovered empirically from common.SEPARATORS, "", and two look-alikes).  '
@@ -27,8 +30,8 @@ RULE = (
     'options].  ' + G.NONTRIVIAL_RULE)
 
 PARAMS = {
-    'quick': dict(full=0, dense=3, light=40, near=3, mutations=3),
-    'thorough': dict(full=8, dense=40, light=400, near=30, mutations=12),
+    'quick': dict(full=0, dense=3, light=40, near=3, mutations=3, selfsim=4, selfsim_limit=250),
+    'thorough': dict(full=8, dense=40, light=400, near=30, mutations=12, selfsim=40, selfsim_limit=2500),
 }
 EXPECT = ('format(x) does not raise; N(validate(format(x))) == N(validate(x)); format(x) == format(validate(x))')
 
@@ -260,6 +263,26 @@ def _worker(task):
                         check('near-valid', v[:i] + ch + v[i + 1:], {})
                 if i < len(v):
                     check('near-valid', v[:i] + v[i + 1:], {})
+    # self-similar valid numbers (the text of one part recurring in another part), in every case spelling
+    for idx, v in enumerate(valid):
+        gidx = idx * nparts + part
+        if gidx >= P['selfsim']:
+            break
+        forms = [v]
+        if compact is not None:
+            try:
+                c = compact(v)
+                if isinstance(c, str) and c and c != v:
+                    forms.append(c)
+            except Exception:   # noqa: B902
+                pass
+        for f in forms:
+            for lab, y in G.self_similar(f, rng, P['selfsim_limit']):
+                if check(lab, y, {}):
+                    for z in G.case_presentations(y):
+                        check('self-similar:case', z, {})
+                    for fkw in fopts[1:]:
+                        check('self-similar:option', y, fkw)
     return {'module': modname, 'task': (modname, part), 'stats': st.summary(), 'findings': fnd.export(),
             'samples': samples}
 
